@@ -613,11 +613,12 @@ impl<'s, 'w, W: Write, S: Borrow<Schema>> Serializer for SchemaAwareSerializer<'
             )?),
             Schema::Record(record) => {
                 // Structs with flattened fields are serialized as a map
+                // The length is the number of entries, no bytes have been written yet
                 Ok(MapOrRecordSerializer::record(
                     self.writer,
                     record,
                     self.config,
-                    len,
+                    None,
                 ))
             }
             Schema::Union(union) => {
